@@ -155,6 +155,12 @@ def check(ctx):
                       "every store appends a non-empty signed term, so a slot equals '0.0' iff no store reached it", found=txt)
     ctx.floor("R6", "jacobian stores", n6, 5)
     jac_writers(ctx, "R7")
+    # the Jacobian addresses rows and columns by POSITION in network.species (literal integers) while the RHS uses IDX_<alias>:
+    # entry (i, j) is d ydot_i / d y_j only if the macro header numbers the species by that same position (shared with C09.R4)
+    from . import c09
+    from ..pymodel import package as _pkg
+    ctx.absorb(lambda sub: c09._r4_defs(sub, _pkg(sub.tree)), "R8", only=lambda o: o.key.startswith("naunet_macros.h.j2:IDX_ definitions"))
+    ctx.floor("R8", "macro header numbering", len([o for o in ctx.obs if o.rule == "R8"]), 1)
 
 
 
@@ -420,6 +426,7 @@ def _r5(ctx, m):
 
 T = FILE
 MUTANTS = [
+    {"name": "macros-gas-first", "file": "naunet/templates/base/cpp/include/naunet_macros.h.j2", "old": "{% for spec in network.species %}\n#define IDX_{{ spec.alias }} {{ loop.index0 }}", "new": "{% for spec in network.species | sort(attribute='is_surface') %}\n#define IDX_{{ spec.alias }} {{ loop.index0 }}", "rules": ["R8"]},
     {"name": "cusparse-kernel-drops-system-offset", "file": "naunet/templates/cvode/src/naunet_jac.cpp.j2", "old": "data[jistart + ", "new": "data[", "rules": ["R7"]},
     {"name": "odeint-jac-clips-abundances", "file": "naunet/templates/odeint/src/naunet_ode.cpp.j2", "old": "        y[i] = abund[i];\n    }\n\n    {% set components = network.reactions + network.grains + network.heating + network.cooling -%}\n    {% for key, _ in components | collect_variable_items(\"params\") -%}", "new": "        y[i] = fmax(abund[i], 0.0);\n    }\n\n    {% set components = network.reactions + network.grains + network.heating + network.cooling -%}\n    {% for key, _ in components | collect_variable_items(\"params\") -%}", "count": 2, "rules": ["R7"]},
     {"name": "remove-wrong-index", "file": T, "old": "for ri in rspecidx:\n                    rsymcopy = rsym.copy()\n                    rsymcopy.remove(y[ri])\n                    term = f\" - ",
